@@ -39,8 +39,9 @@ def status(r):
 
 
 class Hist:
-    def __init__(self, rng, idx, workdir):
+    def __init__(self, rng, idx, workdir, big_m=False):
         self.rng = rng
+        self.big_m = big_m
         sftpd._reload()
         sftpd.SIZE_THRESHOLD = rng.choice([1000, 4])
         self.g = g = Grid(os.path.join(workdir, "h%d" % idx), num_servers=1, k=1, n=1, happy=1, seed=idx)
@@ -50,7 +51,7 @@ class Hist:
         adata = bytes((7 * j + 3) % 251 for j in range(rng.choice([3, 60])))
         g.run(self.root.add_file("a", upload.Data(adata, SClient.convergence)))
         self.init["a"] = list(adata)
-        mdata = bytes((11 * j + 5) % 251 for j in range(rng.choice([9, 14])))
+        mdata = bytes((11 * j + 5) % 251 for j in range(rng.choice([9, 14]) if not getattr(self, "big_m", False) else rng.choice([20, 31])))
         self.mnode = g.run(nm.create_mutable_file(MutableData(mdata), version=rng.choice([SDMF_VERSION, MDMF_VERSION])))
         g.run(self.root.set_node("m", self.mnode))
         self.init["m"] = list(mdata)
@@ -133,6 +134,58 @@ class Hist:
         st, _ = self.call(th)
         self.events.append({"ev": "BOp", "op": op, "name": name, "name2": name2, "st": st})
 
+    # ---- pipelined requests of session A on one path (family c39): close is sent and the same path opened again at once ----
+    def issue(self, thunk):
+        out = []
+        try:
+            d = thunk()
+        except Exception:
+            d = defer.fail(Failure())
+        d.addBoth(out.append)
+        return out
+
+    def wait(self, out):
+        try:
+            for _ in range(200000):
+                if out:
+                    break
+                if not self.g.step():
+                    break
+        except Hang:
+            pass
+        settle()
+        return status(out[0]) if out else "never_answered"
+
+    def run_pipelined(self):
+        """open m, write, send close and - without waiting for its answer - open m again, write, close: requests about one
+        file take effect in the order in which they were sent, so the second handle starts from what the first committed"""
+        rng = self.rng
+        flags = ft.FXF_WRITE | ft.FXF_READ
+        ev = self.events
+        o1 = self.issue(lambda: self.A.openFile(b"m", flags, {}))
+        e_open1 = {"ev": "AOpen", "h": 1, "name": "m", "kind": "mut", "st": self.wait(o1)}
+        ev.append(e_open1)
+        if e_open1["st"] != "ok":
+            self.final()
+            return
+        h1 = o1[0]
+        for _ in range(rng.randint(1, 2)):
+            off, data = rng.choice([0, 2, 5]), [rng.randrange(1, 200) for _ in range(rng.randint(1, 4))]
+            ev.append({"ev": "AWrite", "h": 1, "off": off, "data": data, "st": self.wait(self.issue(lambda: h1.writeChunk(off, bytes(data))))})
+        c1 = self.issue(lambda: h1.close())                      # not waited for
+        e_close1 = {"ev": "AClose", "h": 1, "st": "?"}
+        ev.append(e_close1)
+        o2 = self.issue(lambda: self.A.openFile(b"m", flags, {}))
+        e_open2 = {"ev": "AOpen", "h": 2, "name": "m", "kind": "mut", "st": self.wait(o2)}
+        ev.append(e_open2)
+        e_close1["st"] = self.wait(c1)
+        if e_open2["st"] == "ok":
+            h2 = o2[0]
+            off, data = rng.choice([1, 3, 8, 12]), [rng.randrange(1, 200) for _ in range(rng.randint(1, 4))]
+            ev.append({"ev": "AWrite", "h": 2, "off": off, "data": data, "st": self.wait(self.issue(lambda: h2.writeChunk(off, bytes(data))))})
+            ev.append({"ev": "AClose", "h": 2, "st": self.wait(self.issue(lambda: h2.close()))})
+        self.final()
+
     def final(self):
         g = self.g
         root = g.make_nodemaker().create_from_cap(self.root.get_uri())
@@ -182,7 +235,7 @@ class Hist:
         for ent in list(opened):
             self.a_close(ent[0])
         self.final()
-        return {"consts": {"names": NAMES, "init": self.init}, "events": self.events}
+        return {"consts": {"names": NAMES, "init": self.init, "family": "c18"}, "events": self.events}
 
     def close(self):
         self.g.close()
@@ -192,18 +245,26 @@ def main():
     ap = argparse.ArgumentParser()
     ap.add_argument("--out"); ap.add_argument("--seed", type=int, default=0); ap.add_argument("--tier", default="quick")
     ap.add_argument("--in", dest="inp"); ap.add_argument("--n", type=int, default=40)
+    ap.add_argument("--family", default="c18")
     a = ap.parse_args()
     sftpd.noisy = False
     work = tempfile.mkdtemp(prefix="sftpsess")
     traces = []
     try:
         for i in range(a.n):
-            h = Hist(random.Random("sftp-sessions-%d-%d" % (a.seed, i)), i, work)
+            if a.family == "c39":
+                from allmydata.mutable import publish as _pub
+                _pub.DEFAULT_MUTABLE_MAX_SEGMENT_SIZE = 6          # the mutable child has several segments
+            h = Hist(random.Random("sftp-sessions-%s-%d-%d" % (a.family, a.seed, i)), i, work, big_m=(a.family == "c39"))
             try:
+                if a.family == "c39":
+                    h.run_pipelined()
+                    traces.append({"consts": {"names": NAMES, "init": h.init, "family": "c39"}, "events": h.events})
+                    continue
                 traces.append(h.run())
             except Exception as ex:       # an exception of the code under test outside a request: an observation
                 h.events.append({"ev": "Crash", "what": "%s: %s" % (type(ex).__name__, str(ex)[:200])})
-                traces.append({"consts": {"names": NAMES, "init": h.init}, "events": h.events})
+                traces.append({"consts": {"names": NAMES, "init": h.init, "family": a.family}, "events": h.events})
             finally:
                 h.close()
     finally:
